@@ -161,3 +161,45 @@ func (p *Path) feasible() bool {
 	}
 	return true
 }
+
+// constTable lowers a function whose body is a switch over parameter pi
+// (if-chain or switch) returning constants to a table: case constant ->
+// returned constant term (string form); "default" for the path on which every
+// comparison is false.
+func (P *Prog) constTable(fn *ssa.Function, pi, ri int) (map[string]string, string) {
+	out := map[string]string{}
+	pt := T("param", itoa(int64(pi)))
+	for _, p := range P.allPaths(fn) {
+		if !p.feasible() {
+			continue
+		}
+		res := p.results()
+		if ri >= len(res) {
+			return nil, "result index out of range"
+		}
+		val := res[ri].String()
+		key := "default"
+		for _, c := range p.conds {
+			if c.Pred.Op != "binop" || c.Pred.S != "==" {
+				return nil, "condition " + c.String() + " is not a comparison with a constant"
+			}
+			var k *Term
+			switch {
+			case c.Pred.Args[0].eq(pt):
+				k = c.Pred.Args[1]
+			case c.Pred.Args[1].eq(pt):
+				k = c.Pred.Args[0]
+			default:
+				return nil, "condition " + c.String() + " does not test the parameter"
+			}
+			if c.Val {
+				key = k.String()
+			}
+		}
+		if old, ok := out[key]; ok && old != val {
+			return nil, "case " + key + " returns both " + old + " and " + val
+		}
+		out[key] = val
+	}
+	return out, ""
+}
